@@ -5,17 +5,23 @@ against it (applied to /repo and undone straight afterwards) and, when confirmed
 import glob, json, os, re, shutil, subprocess, sys
 
 root = os.path.dirname(os.path.dirname(os.path.abspath(__file__)))
-src = "/tmp/seedout"
+src = os.environ.get("SEED_SRC", "/tmp/seedout")
+offset = int(os.environ.get("SEED_OFFSET", "0"))
 ids = sys.argv[1:] or sorted(os.path.basename(d) for d in glob.glob(src + "/C*"))
 for pid in ids:
     for patch in sorted(glob.glob("%s/%s/patch*.diff" % (src, pid))):
         n = re.search(r"patch(\d+)\.diff", patch).group(1)
         demo = "%s/%s/demo%s.py" % (src, pid, n)
-        dest = os.path.join(root, "seeded", "%s-%s" % (pid, n))
+        dest = os.path.join(root, "seeded", "%s-%d" % (pid, int(n) + offset))
         if os.path.exists(os.path.join(dest, "meta.json")) or not os.path.exists(demo):
             continue
-        c = subprocess.run([os.path.join(root, "tools/confirm_seed.py"), patch, demo], capture_output=True, text=True)
-        confirmed = c.returncode == 0
+        cached = "%s/%s/confirm%s.txt" % (src, pid, n)  # written by a parallel pre-pass of confirm_seed.py
+        if os.path.exists(cached):
+            class c: stdout = open(cached).read()
+            confirmed = c.stdout.startswith("CONFIRMED")
+        else:
+            c = subprocess.run([os.path.join(root, "tools/confirm_seed.py"), patch, demo], capture_output=True, text=True)
+            confirmed = c.returncode == 0
         print(c.stdout.strip())
         if not confirmed:
             continue
